@@ -109,9 +109,11 @@ def run(tier):
         a1 = pool.map_async(snapdrv.long_file_worker, ljobs, chunksize=2)
         a2 = pool.map_async(snapdrv.file_case_worker, fjobs, chunksize=2)
         a3 = pool.map_async(snapdrv.trace_worker, tjobs, chunksize=1)
+        ojobs = [(wd, 5000 + n, sd * 31 + n, ('src', 'dst', 'both')[n % 3]) for n in range(12 if quick else 120)]
+        a4 = pool.map_async(snapdrv.over_trace_worker, ojobs, chunksize=1)
         lcases = [c for p in a1.get() for c in p]
         fcases = a2.get()
-        traces = a3.get()
+        traces = a3.get() + a4.get()
     finally:
         pool.terminate()
         pool.join()
@@ -173,13 +175,15 @@ def run(tier):
     for t, l, clause in bad:
         s = t['steps'][l - 1]
         kinds = '+'.join(sorted(set(o['k'] + ('-paged' if o['page'] >= 0 else '') for o in s['ops']))) if l > 1 else 'create'
+        if t.get('over') and l > 1:
+            kinds = 'move-paged-overrun'
         ops = [{k: v for k, v in o.items() if v not in (0, -1, '', []) or k in ('k', 'v')} for o in s['ops']]
         rep.violation('ops:%s:%s:%s:%s' % (t['fmt'], s['tool'], kinds, clause),
                       '%s %s v%d %s, invocation %d (%s %s): %s; error %r; observed diff (first 12) %s'
                       % (t['machine'], t['fmt'], t['ver'], t['create'], l, s['tool'], ' '.join(s.get('args', [])), clause, s['obs']['err'],
                          s['obs']['diff'][:12]),
                       {'seed': t['seed'], 'n': t['n'], 'fmt': t['fmt'], 'ver': t['ver'], 'machine': t['machine'], 'create': t['create'],
-                       'step': l, 'ops': ops, 'args': s.get('args'), 'obs': {k: s['obs'][k] for k in ('err', 'ind', 'real', 'same', 'toomany')},
+                       'step': l, 'over': t.get('over'), 'nsteps': t.get('nsteps'), 'ops': ops, 'args': s.get('args'), 'obs': {k: s['obs'][k] for k in ('err', 'ind', 'real', 'same', 'toomany')},
                        'diff_head': s['obs']['diff'][:40], 'clause': clause})
     for t in traces:
         for s in t['steps']:
@@ -264,8 +268,14 @@ def replay(path):
         for _, clause in fails:
             print('  %s: %s' % (c['key'], clause))
         failed = bool(fails)
+    elif 'create' in rp and rp.get('over'):
+        t = snapdrv.over_trace_worker((wd, rp['n'], rp['seed'], rp['over']))
+        bad = judge_op_traces(rep, [t], wd)
+        for _, l, clause in bad:
+            print('  invocation %d: %s' % (l, clause))
+        failed = bool(bad)
     elif 'create' in rp:
-        t = snapdrv.trace_worker((wd, rp['n'], rp['seed'], 14))
+        t = snapdrv.trace_worker((wd, rp['n'], rp['seed'], rp.get('nsteps', 14)))
         bad = judge_op_traces(rep, [t], wd)
         for _, l, clause in bad:
             print('  invocation %d: %s' % (l, clause))
